@@ -11,6 +11,8 @@
  *     w ...       same for writes
  *     R n <k> | R e <errno> | R -     default for reads beyond the listed entries
  *     W ...                             default for writes beyond the listed entries
+ *     t n <k>     only the first k calls of pthread_create succeed, later ones fail with EAGAIN
+ *                 (what RLIMIT_NPROC, pids.max or a lack of memory for the stack do)
  *
  * Intercepted: read/readv on fd 0 and on files opened through a relative path or a path
  * below IOFAULT_DIR; write/writev on fd 1. Everything else (stderr, what the runtime opens
@@ -21,6 +23,7 @@
 #include <dlfcn.h>
 #include <errno.h>
 #include <fcntl.h>
+#include <pthread.h>
 #include <stdarg.h>
 #include <stdio.h>
 #include <stdlib.h>
@@ -46,6 +49,8 @@ static const char *dir_prefix;
 static size_t dir_prefix_len;
 static int logfd = -1;
 static int ready;
+static long threads_allowed = -1; /* -1: unlimited */
+static int ithr;
 
 static ssize_t (*real_read)(int, void *, size_t);
 static ssize_t (*real_write)(int, const void *, size_t);
@@ -133,6 +138,7 @@ __attribute__((constructor)) static void init(void) {
                 if (which == 'r' && nrd < MAXE) rd[nrd++] = e;
                 else if (which == 'w' && nwr < MAXE) wr[nwr++] = e;
                 else if (which == 'r' || which == 'w') logline("! schedule longer than %d entries: the rest is ignored\n", MAXE);
+                else if (which == 't' && kind == 'n') threads_allowed = arg;
                 else if (which == 'R') rd_default = e;
                 else if (which == 'W') wr_default = e;
             }
@@ -299,4 +305,18 @@ ssize_t writev(int fd, const struct iovec *iov, int iovcnt) {
     for (int i = 0; i < iovcnt; i++)
         if (iov[i].iov_len) return write(fd, iov[i].iov_base, iov[i].iov_len);
     return 0;
+}
+
+int pthread_create(pthread_t *t, const pthread_attr_t *a, void *(*fn)(void *), void *arg) {
+    static int (*real_pc)(pthread_t *, const pthread_attr_t *, void *(*)(void *), void *);
+    if (!real_pc) real_pc = dlsym(RTLD_NEXT, "pthread_create");
+    resolve();
+    int my = __atomic_fetch_add(&ithr, 1, __ATOMIC_SEQ_CST);
+    if (ready && threads_allowed >= 0 && my >= threads_allowed) {
+        logline("t %d refused\n", my);
+        return EAGAIN;
+    }
+    int r = real_pc(t, a, fn, arg);
+    if (ready) logline("t %d %d\n", my, r);
+    return r;
 }
